@@ -158,6 +158,41 @@ AntiunifyClause(c) ==
   ELSE IF ~AaSame(gr, c.fs, AaFreeSeq(c.fs)) THEN "GeneralisationInstantiatesToTheRightOperand"
   ELSE "ok"
 
+
+(* DESCRIPTIVE: Axis.antiunify as the library computes it (least general generalisation with a memo of generalised pairs;    *)
+(* product axes are cut into chunks of equal size from the left, one-element factors pair up).  R3                          *)
+(* MC_AxisAlg!ModelGeneralisationInstantiates: on every typed pair the result satisfies AntiunifyClause.  Never gates.      *)
+(* st = [an |-> <<[id, n, l, r]>>, nx |-> next fresh id];  operators return [st, t].                                         *)
+AnExtend(st, e, f) ==
+  IF \E i \in DOMAIN st.an : st.an[i].l = e /\ st.an[i].r = f
+  THEN LET b == st.an[CHOOSE i \in DOMAIN st.an : st.an[i].l = e /\ st.an[i].r = f] IN [st |-> st, t |-> [k |-> "P", id |-> b.id, n |-> b.n]]
+  ELSE [st |-> [an |-> Append(st.an, [id |-> st.nx, n |-> AxNumel(e), l |-> e, r |-> f]), nx |-> st.nx + 1],
+        t |-> [k |-> "P", id |-> st.nx, n |-> AxNumel(e)]]
+AnIsProd(e) == e.k = "X"
+RECURSIVE AnAnti(_, _, _), AnChunks(_, _, _, _, _, _, _, _, _, _)
+\* el, er, fl, fr: 0-based cut positions as in the code; en, fn: sizes of the pending chunks; ret: the chunks emitted so far
+AnChunks(st, es, fs, el, er, fl, fr, en, fn, ret) ==
+  IF ~(el < Len(es) \/ fl < Len(fs)) THEN [st |-> st, t |-> AuProd(ret)]
+  ELSE IF en = fn /\ (el < er \/ fl < fr) THEN
+       LET e1 == AuProd(SubSeq(es, el + 1, er))  f1 == AuProd(SubSeq(fs, fl + 1, fr))
+           r == IF AnIsProd(e1) /\ AnIsProd(f1) THEN AnExtend(st, e1, f1) ELSE AnAnti(st, e1, f1) IN
+       AnChunks(r.st, es, fs, er, er, fr, fr, en, fn, Append(ret, r.t))
+  ELSE IF en = fn /\ er < Len(es) /\ fr < Len(fs) THEN
+       AnChunks(st, es, fs, el, er + 1, fl, fr + 1, en * AxNumel(es[er + 1]), fn * AxNumel(fs[fr + 1]), ret)
+  ELSE IF en < fn \/ fr = Len(fs) THEN
+       AnChunks(st, es, fs, el, er + 1, fl, fr, en * AxNumel(es[er + 1]), fn, ret)
+  ELSE AnChunks(st, es, fs, el, er, fl, fr + 1, en, fn * AxNumel(fs[fr + 1]), ret)
+AnAnti(st, e, f) ==
+  IF AnIsProd(e) /\ AnIsProd(f) /\ ~AuZero(e) /\ ~AuZero(f) THEN AnChunks(st, e.fs, f.fs, 0, 0, 0, 0, 1, 1, <<>>)
+  ELSE IF e.k = "S" /\ f.k = "S" /\ e.b = f.b /\ e.a = f.a THEN
+       LET r == AnAnti(st, e.t, f.t) IN [st |-> r.st, t |-> [k |-> "S", b |-> e.b, t |-> r.t, a |-> e.a]]
+  ELSE AnExtend(st, e, f)
+\* the lists generalised pair by pair under one anti-substitution, presented like an observed case
+AnAsCase(es, fs) ==
+  LET r == FoldLeft(LAMBDA acc, i: LET x == AnAnti(acc.st, es[i], fs[i]) IN [st |-> x.st, gs |-> Append(acc.gs, x.t)],
+                    [st |-> [an |-> <<>>, nx |-> 9500], gs |-> <<>>], BIota(Len(es))) IN
+  [es |-> es, fs |-> fs, gs |-> r.gs, an |-> r.st.an]
+
 \* ----------------------------------------------------------- stride, index
 (* c.e term; c.off; c.st : <<[id, c]>> coefficients                                                     *)
 StrideClause(c) ==
